@@ -242,7 +242,7 @@ func harnessOverlay(k binKey, ov map[string]string, xf func(src, dst string) err
 		return fmt.Errorf("no harness dir for %v: %v", k, err)
 	}
 	for _, e := range ents {
-		if !strings.HasSuffix(e.Name(), ".go") {
+		if !strings.HasSuffix(e.Name(), ".go") || !onlyFilter(e.Name()) {
 			continue
 		}
 		src := filepath.Join(k.harnessDir(), e.Name())
@@ -257,6 +257,22 @@ func harnessOverlay(k binKey, ov map[string]string, xf func(src, dst string) err
 		ov[dst] = src
 	}
 	return nil
+}
+
+// onlyFilter implements VERIF_ONLY (development aid): a comma separated list of
+// file-name prefixes; only matching harness files (and util_* helpers) are
+// compiled in, so that a broken harness under development cannot break others.
+func onlyFilter(name string) bool {
+	only := os.Getenv("VERIF_ONLY")
+	if only == "" || strings.HasPrefix(name, "util_") {
+		return true
+	}
+	for _, p := range strings.Split(only, ",") {
+		if p != "" && strings.HasPrefix(name, p) {
+			return true
+		}
+	}
+	return false
 }
 
 // moduleDirFor returns the directory holding the go.mod that governs pkg.
@@ -279,6 +295,9 @@ func buildBin(k binKey) (string, error) {
 	name := k.flavour + "_" + strings.ReplaceAll(k.pkg, "/", "__")
 	if k.pkg == "." {
 		name = k.flavour + "_root"
+	}
+	if only := os.Getenv("VERIF_ONLY"); only != "" {
+		name += "_only_" + sigFile(only)
 	}
 	bin := filepath.Join(gen, name+".test")
 	var berr error
